@@ -295,7 +295,13 @@ func (c *Checker) RunGoals(goals []*Goal, timeout time.Duration) []*ObligResult 
 				}
 			}
 			q := RenderQuery(c.E.Specs.Prelude, g.Prefix, g.Goal, lazyDecls(g))
-			results[i] = gr{g, c.Solver.Solve(g.Oblig, q)}
+			res := c.Solver.Solve(g.Oblig, q)
+			if res.Status == "sat" && g.Expect == "unsat" && (strings.Contains(q, "(ufpmul") || strings.Contains(q, "(ufpdiv")) {
+				// floating-point * and / were uninterpreted (shared by code and spec): a
+				// model may be spurious, so the answer with the real IEEE operators decides
+				res = c.Solver.Solve(g.Oblig+"-ieee", ConcreteFP(q))
+			}
+			results[i] = gr{g, res}
 		}()
 	}
 	wg.Wait()
@@ -323,6 +329,10 @@ func (c *Checker) RunGoals(goals []*Goal, timeout time.Duration) []*ObligResult 
 				q := g.Raw
 				if q == "" {
 					q = RenderQuery(c.E.Specs.Prelude, g.Prefix, g.Goal, lazyDecls(g))
+					if strings.Contains(q, "(ufpmul") || strings.Contains(q, "(ufpdiv") {
+						// undecided after the uninterpreted stage said sat: only the IEEE query counts
+						q = ConcreteFP(q)
+					}
 				}
 				r := c.Solver.SolveFresh(g.Oblig+"-retry", q)
 				if r.Status == "unsat" || r.Status == "sat" {
@@ -418,7 +428,7 @@ func LoadKnownFindings(path string) ([]*KnownFinding, error) {
 }
 
 func sortedKeys(m map[string]bool) []string {
-	var out []string
+	out := []string{}
 	for k := range m {
 		out = append(out, k)
 	}
